@@ -6,7 +6,7 @@ use lightning_signer::bitcoin::hashes::Hash;
 use lightning_signer::bitcoin::transaction::Version;
 use lightning_signer::bitcoin::{Amount, Block, OutPoint, ScriptBuf, Sequence, Transaction, TxIn, TxOut, Txid, Witness};
 use lightning_signer::chain::tracker::ChainTracker;
-use lightning_signer::channel::{ChannelBase, ChannelId};
+use lightning_signer::channel::{ChannelBase, ChannelId, CommitmentType};
 use lightning_signer::lightning::types::payment::PaymentHash;
 use lightning_signer::monitor::ChainMonitor;
 use lightning_signer::node::Node;
@@ -31,6 +31,11 @@ pub const V2: u64 = 10; // second-level spend of T2:0
 pub const V12A: u64 = 11; // second-level spend of T12:0
 pub const V12B: u64 = 12; // second-level spend of T12:1
 pub const D2: u64 = 13; // double-spend of the other funding input 0.1 (independent of D)
+pub const UC: u64 = 14; // counterparty commitment (no HTLC) paying us a to_remote output
+pub const SC: u64 = 15; // sweep of our to_remote output of UC
+pub const UR: u64 = 16; // an OLD (revoked) counterparty commitment, number 5, no HTLC (breach)
+pub const SR: u64 = 17; // sweep of our to_remote output of UR
+pub const JR: u64 = 18; // justice spend of the counterparty's to_local output of UR
 pub const X0: u64 = 20; // unrelated transactions X0..X0+9
 
 /// Deliver a block connection the way the real front end does: compact proof, or — when requested, or
@@ -123,13 +128,16 @@ pub struct World {
     pub cb: u32,
     pub base_height: u32,
     pub filter_false_positives: u32,
+    /// per closing tx: (index of the output the harness built as ours, HTLC output indices it built)
+    pub built: BTreeMap<u64, (u32, Vec<u32>)>,
+    pub ctype: String,
 }
 
 pub fn parse_token_id(tk: &str) -> u64 {
     tk.trim_start_matches('T').split(':').next().unwrap().parse().expect("tx token")
 }
 
-static TOKENS: OnceLock<BTreeMap<u64, String>> = OnceLock::new();
+static TOKENS: OnceLock<std::sync::Mutex<BTreeMap<String, &'static BTreeMap<u64, String>>>> = OnceLock::new();
 
 impl World {
     /// pool transactions that do not depend on the node
@@ -138,10 +146,20 @@ impl World {
     }
 
     pub fn new() -> World {
+        Self::new_typed("s")
+    }
+
+    /// channel type: "s" static-remotekey, "a" anchors zero-fee-HTLC, "l" legacy
+    pub fn new_typed(ct: &str) -> World {
         let funding_tx = Self::funding_tx();
         let funding_outpoint = OutPoint::new(funding_tx.compute_txid(), 0);
         let mut setup = make_test_channel_setup();
         setup.funding_outpoint = funding_outpoint;
+        setup.commitment_type = match ct {
+            "a" => CommitmentType::AnchorsZeroFeeHtlc,
+            "l" => CommitmentType::Legacy,
+            _ => CommitmentType::StaticRemoteKey,
+        };
         let (node, channel_id) = init_node_and_channel(TEST_NODE_CONFIG, TEST_SEED[1], setup.clone());
         // what sign_onchain_tx does for the funding inputs
         node.with_channel(&channel_id, |chan| {
@@ -156,6 +174,7 @@ impl World {
         }
         // holder commitment 23 with our output and two offered HTLCs, known to the enforcement state
         let commit_num = 23u64;
+        let cp_point = lightning_signer::util::test_utils::key::make_test_pubkey(12);
         let (to_holder, to_cp, feerate) = (1_000_000u64, 1_900_000u64, 1000u32);
         let offered = vec![
             HTLCInfo2 { value_sat: 30_000, payment_hash: PaymentHash([1; 32]), cltv_expiry: 100 },
@@ -163,13 +182,36 @@ impl World {
         ];
         node.with_channel(&channel_id, |chan| {
             chan.set_next_holder_commit_num_for_testing(commit_num + 1);
-            let p = chan.get_per_commitment_point(commit_num)?;
-            chan.set_next_counterparty_commit_num_for_testing(commit_num + 1, p);
+            chan.set_next_counterparty_commit_num_for_testing(commit_num + 1, cp_point);
             chan.enforcement_state.current_holder_commit_info =
                 Some(CommitmentInfo2::new(false, to_cp, to_holder, offered.clone(), vec![], feerate));
             Ok(())
         })
         .unwrap();
+        // the counterparty's commitment 23 (no HTLC): to_local of the counterparty + our to_remote output
+        // (p2wpkh for static-remotekey, anchored p2wsh for anchors) + anchors outputs where the type has them
+        let (uc_to_holder, uc_to_cp) = (1_100_000u64, 1_880_000u64);
+        let uc = node
+            .with_channel(&channel_id, |chan| Ok(chan.make_counterparty_commitment_tx(&cp_point, commit_num, feerate, uc_to_holder, uc_to_cp, vec![])))
+            .unwrap()
+            .trust()
+            .built_transaction()
+            .transaction
+            .clone();
+        let uc_our = uc.output.iter().position(|o| o.value.to_sat() == uc_to_holder).expect("to_remote output") as u32;
+        let old_point = lightning_signer::util::test_utils::key::make_test_pubkey(13);
+        let (ur_to_holder, ur_to_cp) = (1_200_000u64, 1_780_000u64);
+        let ur = node
+            .with_channel(&channel_id, |chan| Ok(chan.make_counterparty_commitment_tx(&old_point, 5, feerate, ur_to_holder, ur_to_cp, vec![])))
+            .unwrap()
+            .trust()
+            .built_transaction()
+            .transaction
+            .clone();
+        let ur_our = ur.output.iter().position(|o| o.value.to_sat() == ur_to_holder).expect("to_remote output") as u32;
+        let ur_local = ur.output.iter().position(|o| o.value.to_sat() == ur_to_cp).expect("to_local output") as u32;
+        let sr = mk_tx(vec![OutPoint::new(ur.compute_txid(), ur_our)], 1, 25);
+        let jr = mk_tx(vec![OutPoint::new(ur.compute_txid(), ur_local)], 1, 26);
         let secp_ctx = lightning_signer::bitcoin::secp256k1::Secp256k1::signing_only();
         let node_ctx = TestNodeContext { node: node.clone(), secp_ctx };
         let counterparty_keys = make_test_counterparty_keys(&node_ctx, &channel_id, setup.channel_value_sat);
@@ -188,6 +230,11 @@ impl World {
         txs.insert(D2, mk_tx(vec![make_outpoint(1)], 1, 23));
         txs.insert(M, mk_tx(vec![funding_outpoint], 2, 13));
         txs.insert(U, u);
+        txs.insert(SC, mk_tx(vec![OutPoint::new(uc.compute_txid(), uc_our)], 1, 24));
+        txs.insert(UC, uc);
+        txs.insert(UR, ur);
+        txs.insert(SR, sr);
+        txs.insert(JR, jr);
         txs.insert(S, mk_tx(vec![OutPoint::new(utxid, our)], 1, 15));
         let t1 = mk_tx(vec![OutPoint::new(utxid, h1)], 1, 16);
         let t2 = mk_tx(vec![OutPoint::new(utxid, h2)], 1, 17);
@@ -208,30 +255,31 @@ impl World {
             ids.insert(t.compute_txid(), *k);
         }
         let base_height = node.get_tracker().height();
-        World { node, channel_id, funding_outpoint, txs, ids, blocks: vec![], cb: 0, base_height, filter_false_positives: 0 }
+        World { node, channel_id, funding_outpoint, txs, ids, blocks: vec![], cb: 0, base_height, filter_false_positives: 0, built: BTreeMap::from([(U, (our, vec![h1.min(h2), h1.max(h2)])), (UC, (uc_our, vec![])), (UR, (ur_our, vec![ur_local]))]), ctype: ct.to_string() }
     }
 
     /// tx tokens `T<id>:<inputs>:<nOut>:<kind>`; the kind of the two closing transactions comes from
     /// the real decoder, observed through a scratch monitor.
     fn tokens() -> &'static BTreeMap<u64, String> {
-        TOKENS.get_or_init(|| {
-            let w = World::new();
+        Self::tokens_typed("s")
+    }
+
+    pub fn tokens_typed(ct: &str) -> &'static BTreeMap<u64, String> {
+        let reg = TOKENS.get_or_init(|| std::sync::Mutex::new(BTreeMap::new()));
+        if let Some(t) = reg.lock().unwrap().get(ct) {
+            return t;
+        }
+        let built: &'static BTreeMap<u64, String> = Box::leak(Box::new({
+            let w = World::new_typed(ct);
+            // kind of the closing transactions = what the commitment decoder must answer for the transactions
+            // the harness built (our output index, HTLC output indices in output order); the real decoder's answer
+            // is compared with it after every block that confirms one of them (`our-output-not-recognised`)
             let mut kinds: BTreeMap<u64, String> = BTreeMap::new();
-            for id in [M, U] {
-                let mut p = World::new();
-                assert!(matches!(p.add_block(&[F], false), StepResult::Ok));
-                assert!(matches!(p.add_block(&[id], false), StepResult::Ok));
-                let st = p.state_json();
-                let kind = if !st["unilateral_closing_height"].is_null() {
-                    let co = &st["closing_outpoints"];
-                    let our = if co["our_output"].is_null() { "-".to_string() } else { co["our_output"][0].to_string() };
-                    let hs: Vec<String> = co["htlc_outputs"].as_array().unwrap().iter().map(|x| x.to_string()).collect();
-                    format!("c{}/{}", our, if hs.is_empty() { "-".into() } else { hs.join(",") })
-                } else {
-                    assert!(!st["mutual_closing_height"].is_null());
-                    "p".to_string()
-                };
-                kinds.insert(id, kind);
+            kinds.insert(M, "p".to_string());
+            for id in [U, UC, UR] {
+                let (our, hs) = w.built[&id].clone();
+                let hs: Vec<String> = hs.iter().map(|x| x.to_string()).collect();
+                kinds.insert(id, format!("c{}/{}", our, if hs.is_empty() { "-".into() } else { hs.join(",") }));
             }
             let mut m = BTreeMap::new();
             for (k, t) in &w.txs {
@@ -248,7 +296,9 @@ impl World {
                 );
             }
             m
-        })
+        }));
+        reg.lock().unwrap().insert(ct.to_string(), built);
+        built
     }
 
     /// a world used only to print tokens (generation side)
@@ -405,6 +455,34 @@ impl World {
         }
     }
 
+    /// a block that does not build on the tip (start of a reorg seen too early): must be refused
+    pub fn add_orphan(&mut self, ids: &[u64], streamed: bool) -> StepResult {
+        self.cb += 1;
+        let mut txs = vec![coinbase(self.cb)];
+        for id in ids {
+            txs.push(self.txs.get(id).expect("pool id").clone());
+        }
+        let mut tracker = self.node.get_tracker();
+        let old = tracker.headers()[0].clone();
+        let block = make_block(old.0, txs);
+        let h = tracker.height();
+        let proof = TxoProof::prove_unchecked(&block, &old.1, h);
+        let r = catch_unwind(AssertUnwindSafe(|| {
+            if streamed {
+                let ext = TxoProof { attestations: proof.attestations.clone(), proof: ProofType::ExternalBlock() };
+                tracker.block_chunk(block.block_hash(), 0, &serialize(&block)).unwrap();
+                tracker.add_block(block.header, ext)
+            } else {
+                tracker.add_block(block.header, proof)
+            }
+        }));
+        match r {
+            Err(e) => StepResult::Panic(panic_msg(e)),
+            Ok(Err(e)) => StepResult::Err(format!("{:?}", e)),
+            Ok(Ok(())) => StepResult::Ok,
+        }
+    }
+
     pub fn remove_block(&mut self, ids: &[u64]) -> StepResult {
         self.remove_block_with(ids, false)
     }
@@ -442,6 +520,10 @@ impl TokenWorld {
 
 pub fn tok(id: u64) -> String {
     World::shared().token(id)
+}
+
+pub fn tok_typed(ct: &str, id: u64) -> String {
+    World::tokens_typed(ct).get(&id).expect("pool id").clone()
 }
 
 pub fn init_line() -> String {
